@@ -42,6 +42,12 @@ UNITS = [
 ]
 
 
+import riemann_corr as RC
+import riemann_oracles as RO
+UNITS.append(flow.Unit('riemann-igeos', groups=['riemann'], props=['props/C02_riemann.v'],
+                       custom_corr=RC.unit_corr, oracle=RO.rh_oracle))
+
+
 def run(report, tier, rng):
     report.assumptions += [
         'real-number semantics of the generated model; py2coq translator validated by in-Coq correspondence goals',
